@@ -141,7 +141,7 @@ PROP = {
                   "informational part of the reply) and the spec is compared with the implementation by the oracle. Trusted: the Lean decoder (spec, ~900 lines, executed, not "
                   "verified against the standards' text), the zip crate, the harness view function and generator, the classifier in this file. Below the abstraction (not compared): "
                   "empty string vs no value, blank hyperlink-anchor cells, default-width columns, optional apostrophes around plain sheet names in defined names, order of tables.",
-    "expect_theorems": ["C03_attr", "C03_attr_get", "C03_text", "C03_cols", "C03_shared_formula", "C03_value_number", "C03_value_error", "C03_cell_partial",
+    "expect_theorems": ["C03_channels_match_source", "C03_attr", "C03_attr_get", "C03_text", "C03_cols", "C03_shared_formula", "C03_value_number", "C03_value_error", "C03_cell_partial",
                         "C03_attr_literal_whitespace", "C03_text_literal_cr", "C03_cell_edge_blanks_fails"],
     "rule": "case = one xlsx file: `c03 reset file <corpus file>`, `c03 reset gen <seed>` (grammar derivation from the seed; productions listed at the top of harness/src/c03.rs and "
             "counted as prod.* in the distribution: cell encodings t=absent/n/s/str/inlineStr/b/e with and without formula, number forms, shared/inline strings plain/rich/phonetic/"
